@@ -5,6 +5,7 @@ import (
 	"errors"
 	"fmt"
 	"github.com/markusressel/fan2go/internal/fans"
+	"github.com/markusressel/fan2go/internal/simhook"
 	"github.com/markusressel/fan2go/internal/ui"
 	bolt "go.etcd.io/bbolt"
 	"os"
@@ -56,6 +57,7 @@ func (p persistence) Init() (err error) {
 }
 
 func (p persistence) openPersistence() (db *bolt.DB, err error) {
+	simhook.Yield("db.open", p.dbPath)
 	db, err = bolt.Open(p.dbPath, 0600, &bolt.Options{Timeout: 1 * time.Minute})
 	if err != nil {
 		return nil, err
